@@ -14,6 +14,10 @@ CHECKS = {
          "Every JSON leaf of every component section (plus the keys elided at default) is set to pairs of semantically different well-formed values, alone, combined with a second leaf, inside a full file through config.Manager (saved to and loaded from disk) and through environment variables. An accepted document must validate and be a fixed point of save->load->save; two accepted documents differing in one non-zero setting must save differently (catches settings dropped on load or on save, or replaced by the default); malformed/zero values may be refused but never panic; display forms never contain planted secrets.",
          "Sections are compared via their own ToJSON text; a field neither loaded nor saved is invisible. Env var names are derived from JSON keys; ineffective names are counted, not judged. The value ranges a section should accept are not specified by the property, so a weakened Validate() is only seen through Default()/fixed-point effects.",
          "DESIGN.md §4 C15"),
+ "C14": ("exploration", "runtime round-trip monitors on real files: StateManager export/import (raft snapshot, crdt badger/leveldb) onto non-empty targets, snapshot/backup histories against a directory model, peerstore save/load/import on real libp2p hosts, malformed peerstore files",
+         "Generated pinsets are stored the way a peer leaves them (Raft snapshot via SnapshotSave, CRDT datastore), exported and imported with the real cmdutils StateManager onto a different non-empty installation and read back offline; every result is compared pin by pin with the harness's comparator. Histories of snapshot-save/clean with retention 1..6 over arbitrary pre-existing backup folders are checked after every step against a directory model, and the newest backup must be readable and hold the cleaned pinset. Peer address sets are saved, loaded and imported on a fresh host and must come back in the same order; files with malformed lines must load exactly their valid lines.",
+         "Pins carry no Origins (known C08 finding would mask everything). /dnsaddr excluded (needs DNS). Starting a live peer on a snapshot is covered by C01/C17, not here.",
+         "DESIGN.md §4 C14"),
 }
 
 ALL = ["C%02d" % i for i in range(1, 19)]
